@@ -153,56 +153,82 @@ theorem snap_mono {scale a b lo hi : F} (hs : isFinite scale = true) (hp : DType
   obtain ⟨kb, yb, hkb, hyb, hhi⟩ := hb
   have hpos := positive_iff hp
   unfold gridIndex at hka hkb
-  have fa : isFinite (div a scale) = true := by
-    have := LawfulFloatOps.round_isSome (div a scale); rw [hka] at this; simpa using this.symm
-  have fb : isFinite (div b scale) = true := by
-    have := LawfulFloatOps.round_isSome (div b scale); rw [hkb] at this; simpa using this.symm
-  have hd := LawfulFloatOps.div_mono a b scale hab hs hpos (notNaN_of_finite fa) (notNaN_of_finite fb)
+  have hd := LawfulFloatOps.div_mono a b scale hab hs hpos
   have hk := LawfulFloatOps.round_mono _ _ ka kb hd hka hkb
   have hy := LawfulFloatOps.ofInt_mono ka kb ya yb hk hya hyb
   rw [hlo, hhi]
-  exact LawfulFloatOps.mul_mono ya yb scale hy hs hpos (LawfulFloatOps.ofInt_finite _ _ hya)
-    (LawfulFloatOps.ofInt_finite _ _ hyb)
+  exact LawfulFloatOps.mul_mono ya yb scale hy hs hpos
 
 theorem isSome_self (x : F) : IsSome (some x) x := by
   unfold IsSome; exact same_refl x
+
+/-- what a successful `scaledValidate` did -/
+theorem scaledValidate_ok {scale min max : F} {v : PVal F} {r : F} (h : scaledValidate scale min max v = .ok r) :
+    ∃ result lo hi x, scaledCall scale v = .ok result ∧ scaledCall scale (.float min) = .ok lo ∧
+      scaledCall scale (.float max) = .ok hi ∧ toFloat? v = some x ∧
+      ((le lo result = true ∧ le result hi = true ∧ r = result) ∨
+       ((le lo result && le result hi) = false ∧ lt (sub min scale) x = true ∧ lt x (add max scale) = true ∧
+          r = median3 lo result hi)) := by
+  unfold scaledValidate at h
+  cases hres : scaledCall scale v with
+  | error e => rw [hres] at h; cases h
+  | ok result =>
+    rw [hres] at h
+    simp only at h
+    obtain ⟨x, _, _, hx, _⟩ := scaledCall_ok hres
+    cases hlo : scaledCall scale (PVal.float min) with
+    | error e => rw [hlo] at h; cases h
+    | ok lo =>
+      cases hhi : scaledCall scale (PVal.float max) with
+      | error e => rw [hlo, hhi] at h; cases h
+      | ok hi =>
+        rw [hlo, hhi] at h
+        simp only at h
+        refine ⟨result, lo, hi, x, rfl, rfl, rfl, hx, ?_⟩
+        split at h
+        · rename_i hc
+          simp only [Bool.and_eq_true] at hc
+          injection h with h
+          exact Or.inl ⟨hc.1, hc.2, h.symm⟩
+        · rename_i hc
+          rw [hx] at h
+          simp only at h
+          split at h
+          · rename_i hg
+            simp only [Bool.and_eq_true] at hg
+            injection h with h
+            exact Or.inr ⟨by simpa using hc, hg.1, hg.2, h.symm⟩
+          · cases h
 
 theorem scaledValidate_sound {scale min max ar rr : F} {v : PVal F} {r : F}
     (hwf : (DType.scaled scale min max ar rr).WF) (h : scaledValidate scale min max v = .ok r) :
     InSet (.scaled scale min max ar rr) (.float r) := by
   simp only [DType.WF] at hwf
   obtain ⟨hs, hp, _, _, hle, hcmin, hcmax, _⟩ := hwf
-  unfold scaledValidate at h
-  split at h
-  · cases h
-  · rename_i result hres
-    split at h
-    · cases h
-    · split at h
-      · split at h
-        · rename_i lo hi hlo hhi
-          injection h with h
-          obtain ⟨slo, dlo⟩ := scaledCall_limit hcmin hlo
-          obtain ⟨shi, dhi⟩ := scaledCall_limit hcmax hhi
-          have hlohi := snap_mono hs hp hle dlo dhi
-          obtain ⟨_, _, _, _, _, _, _, flo⟩ := scaledCall_ok hlo
-          obtain ⟨_, _, _, _, _, _, _, fhi⟩ := scaledCall_ok hhi
-          obtain ⟨_, _, _, _, _, _, _, fres⟩ := scaledCall_ok hres
-          have hb := median3_between (notNaN_of_finite flo) (notNaN_of_finite fres) (notNaN_of_finite fhi) hlohi
-          simp only [InSet, InSetG]
-          rw [← h]
-          refine ⟨?_, ?_⟩
-          · unfold OnGrid
-            rcases median3_mem lo result hi with e | e | e <;> rw [e]
-            · obtain ⟨k, hk⟩ := scaledCall_ofGrid hlo; exact ⟨k, hk ▸ isSome_self lo⟩
-            · obtain ⟨k, hk⟩ := scaledCall_ofGrid hres; exact ⟨k, hk ▸ isSome_self result⟩
-            · obtain ⟨k, hk⟩ := scaledCall_ofGrid hhi; exact ⟨k, hk ▸ isSome_self hi⟩
-          · unfold BetweenSnapped
-            rw [slo, shi]
-            exact hb
-        · cases h
-        · cases h
-      · cases h
+  obtain ⟨result, lo, hi, x, hres, hlo, hhi, hx, hcase⟩ := scaledValidate_ok h
+  obtain ⟨slo, dlo⟩ := scaledCall_limit hcmin hlo
+  obtain ⟨shi, dhi⟩ := scaledCall_limit hcmax hhi
+  have hlohi := snap_mono hs hp hle dlo dhi
+  obtain ⟨_, _, _, _, _, _, _, flo⟩ := scaledCall_ok hlo
+  obtain ⟨_, _, _, _, _, _, _, fhi⟩ := scaledCall_ok hhi
+  obtain ⟨_, _, _, _, _, _, _, fres⟩ := scaledCall_ok hres
+  simp only [InSet, InSetG]
+  rcases hcase with ⟨h1, h2, hr⟩ | ⟨_, _, _, hr⟩
+  · rw [hr]
+    refine ⟨?_, ?_⟩
+    · obtain ⟨k, hk⟩ := scaledCall_ofGrid hres; exact ⟨k, hk ▸ isSome_self result⟩
+    · unfold BetweenSnapped; rw [slo, shi]; exact ⟨h1, h2⟩
+  · have hb := median3_between (notNaN_of_finite flo) (notNaN_of_finite fres) (notNaN_of_finite fhi) hlohi
+    rw [hr]
+    refine ⟨?_, ?_⟩
+    · unfold OnGrid
+      rcases median3_mem lo result hi with e | e | e <;> rw [e]
+      · obtain ⟨k, hk⟩ := scaledCall_ofGrid hlo; exact ⟨k, hk ▸ isSome_self lo⟩
+      · obtain ⟨k, hk⟩ := scaledCall_ofGrid hres; exact ⟨k, hk ▸ isSome_self result⟩
+      · obtain ⟨k, hk⟩ := scaledCall_ofGrid hhi; exact ⟨k, hk ▸ isSome_self hi⟩
+    · unfold BetweenSnapped
+      rw [slo, shi]
+      exact hb
 
 /-! ### bool, enum, string, blob -/
 
